@@ -73,7 +73,7 @@ func TestReproPendingSpin(t *testing.T) {
 	}
 	time.Sleep(500 * time.Millisecond)
 	for i := 0; i < 5; i++ {
-		ok, why := quietApi()
+		ok, why, _ := quietApi()
 		t.Logf("quiet=%v %s", ok, why)
 		time.Sleep(100 * time.Millisecond)
 	}
